@@ -154,7 +154,7 @@ def run_C01(ctx, rep):
 def run_C07(ctx, rep):
     sugar = ('t_neg_sugar', 't_wild_sugar', 't_pat_sugar', 't_rep_sugar', 't_rep2_sugar', 't_mh_sugar', 't_disj_sugar')
     gen_driver.run_twins(ctx, rep, lambda n, k: n.replace('_par', '') in sugar, floors={'T.C': 8, 'T.L': 4})
-    gen_driver.run_tv(ctx, rep, only_tags=['twin', 'repeated', 'wild', 'patarg', 'multihead', 'facts', 'consts', 'neg', 'combo', 'conds'], floors={'R1': 60})
+    gen_driver.run_tv(ctx, rep, only_tags=['twin', 'repeated', 'wild', 'patarg', 'multihead', 'facts', 'consts', 'neg', 'combo', 'conds', 'agg_rep'], floors={'R1': 60})
     macro_rules.check_M1(ctx, rep)
 
 
